@@ -10,7 +10,7 @@ RULE = ('grammar scripts (queries, DML, DDL, CTE; comments in any inter-token po
         'every comment kind in every gap of six statement templates, every statement separator, every dictionary word directly / with whitespace in front of a parenthesis x argument kinds (calls whose name spells a keyword) — each x the layout option sets; '
         'non-trivial = distinct (script, option set) with at least one layout option on')
 ASSUMPTIONS = ['lexical bridge: the output is re-lexed by the real lexer', 'filters model tied by S-FMT (full format pipeline) on the same cases']
-PARTIAL = ['all four layout filters are proved to preserve the significant leaves at tree level; the lexical bridge (the serialized output re-lexes to the same tokens / same statement count) is oracle + S-FMT']
+PARTIAL = ['all four layout filters are proved to preserve the significant leaves at tree level; the lexical bridge (the serialized output re-lexes to the same tokens / same statement count) is a theorem only for ONE whitespace boundary changed at a time, certified by the decidable gapFree (one_boundary_whitespace_change_relexes_partial); several boundaries at once are a stated conjecture validated on the real lexer; end to end: oracle + S-FMT']
 BOOLS = ['reindent', 'reindent_aligned', 'strip_whitespace', 'use_space_around_operators', 'indent_tabs', 'indent_after_first', 'indent_columns', 'comma_first', 'compact']
 INTS = {'indent_width': [1, 2, 3, 4, 8], 'wrap_after': [0, 1, 10, 40, 80]}
 
@@ -35,6 +35,13 @@ def random_opts(rng):
         if rng.random() < 0.3:
             o[k] = rng.choice(vs)
     return o
+
+
+def hash_blank_undone(text):
+    """the text with the blank after every `#` taken out again (KF-C06-4 is exactly that blank: `# ` opens a comment).  Applied to input and output
+    alike: the only effect of the finding is undone, anything else a change did to such an input stays visible"""
+    import re
+    return re.sub(r'#[ \t]+', '#', text)
 
 
 def oracle(ctx, text, opts):
@@ -478,8 +485,11 @@ def classify(f, kf):
         return 'KF-C06-1'
     if 'KF-C06-1' in ids and glue and 'different number of statements' in f['what'] and later_statement_starts_with_comment(text):
         return 'KF-C06-1'
+    # (third red-team pass: the shape of the input is not enough — the output must be the one the model of the unchanged filter computes; a change that
+    # does something else to such inputs, e.g. glues `a #b` to `a#b`, is not this finding)
     if 'KF-C06-4' in ids and opts.get('use_space_around_operators') and hash_operator_before_token(text):
-        return 'KF-C06-4'
+        if sig_with_comments(hash_blank_undone(out)) == sig_with_comments(hash_blank_undone(text)):
+            return 'KF-C06-4'
     if 'KF-C06-5' in ids and eff.get('reindent') and 'changed the sequence' in f['what'] and call_name_retyped(text, out):
         return 'KF-C06-5'
     return None
